@@ -274,7 +274,10 @@ func ruleEmptyInputHandled(c *Ctx) {
 			return false
 		}
 		r := s.Run(Query{Target: first, Exempt: nonEmpty})
-		c.Floor(rule, s.Name, "constant-index reads of the converted column", r.TargetSites, 1)
+		if r.TargetSites == 0 {
+			c.Hold(rule, s.Name, "first-element-only-when-non-empty", c.P.Pos(s.Body.Pos()), "the converted input column is never indexed with a constant (nothing to guard; seeding is judged by R23.4)")
+			continue
+		}
 		c.reportHits(rule, s, "first-element-only-when-non-empty", r, "element 0 of the input column is read only behind the `input is not empty` edge", "the first element is read although the input may be empty (index out of range)")
 	}
 	_ = sort.Strings
